@@ -115,6 +115,7 @@ pub fn run_check(ctx: &Ctx) -> Outcome {
         }
         "C06" => {
             check_e1(ctx, Prop::C06, &mut out, 12000, 250000);
+            check_e1_medium(ctx, Prop::C06, &mut out, 12, 200);
             check_e2(ctx, Prop::C06, &[Kind::Lru], &mut out);
             check_ctor_caps_for(ctx, &mut out, "C06");
             check_vtype(ctx, Kind::Lru, &mut out, 3000, 60000);
@@ -122,27 +123,32 @@ pub fn run_check(ctx: &Ctx) -> Outcome {
         }
         "C07" => {
             check_e1(ctx, Prop::C07, &mut out, 12000, 250000);
+            check_e1_medium(ctx, Prop::C07, &mut out, 12, 200);
             check_e2(ctx, Prop::C07, &[Kind::Seg], &mut out);
             check_vtype(ctx, Kind::Seg, &mut out, 3000, 60000);
             check_ctor_caps_for(ctx, &mut out, "C07");
         }
         "C08" => {
             check_e1(ctx, Prop::C08, &mut out, 12000, 250000);
+            check_e1_medium(ctx, Prop::C08, &mut out, 12, 200);
             check_e2(ctx, Prop::C08, &[Kind::TwoQ], &mut out);
             check_2q_quota_grid(ctx, &mut out);
             check_vtype(ctx, Kind::TwoQ, &mut out, 3000, 60000);
         }
         "C09" => {
             check_e1(ctx, Prop::C09, &mut out, 12000, 250000);
+            check_e1_medium(ctx, Prop::C09, &mut out, 40, 600);
             check_e2(ctx, Prop::C09, &[Kind::Arc], &mut out);
             check_vtype(ctx, Kind::Arc, &mut out, 3000, 60000);
         }
         "C10" => {
             check_e1(ctx, Prop::C10, &mut out, 12000, 250000);
+            check_e1_medium(ctx, Prop::C10, &mut out, 12, 200);
             check_e2(ctx, Prop::C10, &[Kind::Wtl], &mut out);
         }
         "C12" => {
             check_e1(ctx, Prop::C12, &mut out, 12000, 250000);
+            check_e1_medium(ctx, Prop::C12, &mut out, 12, 200);
             check_putresult_laws(ctx, &mut out);
         }
         "C14" => check_e1(ctx, Prop::C14, &mut out, 6000, 100000),
